@@ -1058,6 +1058,9 @@ class PDFDocument:
             log.warning("Circular cross-reference chain at position %d", start)
             return
         visited.add(start)
+        if start < 0:
+            # e.g. a negative /Prev; seeking there would raise ValueError
+            raise PDFNoValidXRef(f"Invalid negative xref position: {start}")
         parser.seek(start)
         parser.reset()
         try:
